@@ -19,7 +19,7 @@ func init() {
 		Title:     "Formatting preserves the syntax tree",
 		Technique: "type-switch exhaustiveness and per-case field-coverage analysis of the printer (expr1, stmt, spec, decl and their helpers) against the node types and fields the parser constructs (derived from parser's composite literals and field stores)",
 		Explanation: "Decides for every tree the parser can produce the structural necessary conditions of 'printing loses nothing': (1) every Expr/Stmt/Spec/Decl node type of which package parser builds a value has a case in the printer switch for its category (otherwise the printer reaches its default arm); " +
-			"(2) in each case every field that carries syntax — child nodes, operator/keyword tokens (Op, Tok, Dir, Kind) and the XGo flags that change the surface syntax (NoParenEnd, Ellipsis, LhsHasParen, RhsHasParen, Static, Operator, IsClass, Shadow, …) — and that the parser actually sets for that node type is read by the code that prints the node (in the case body or in a helper method that receives the node, followed two levels deep); a field that is never read cannot survive formatting.",
+			"(2) in each case every field that carries syntax — child nodes, operator/keyword tokens (Op, Tok, Dir, Kind) and the XGo flags that change the surface syntax (NoParenEnd, Ellipsis, LhsHasParen, RhsHasParen, Static, Operator, IsClass, Shadow, …) — and that the parser actually sets for that node type is read by the code that prints the node (in the case body or in a helper method that receives the node, followed two levels deep); a field that is never read cannot survive formatting. (2b, print-operand-path) path-sensitively over go/cfg: an optional child (pointer- or interface-typed node field) that a case of any type switch over syntax nodes in package printer hands to a printer routine on one path is, on every path through that case, handed on or known nil by a nil test on that path (reviewed exceptions: c19OperandReviewed) — `else` printed only when there is no init statement is caught here and not by (2).",
 		NotCovered: "how a field is printed (spacing, parenthesisation — partly C22), comment placement, and re-parse equality of the output.",
 		Run:        runC19,
 		Controls: []Control{
@@ -29,6 +29,7 @@ func init() {
 			{Name: "lambda-rhs-paren-weakened", File: f, Old: "\t\tif x.RhsHasParen {\n\t\t\tp.print(token.LPAREN)", New: "\t\tif x.RhsHasParen && len(x.Rhs) != 1 {\n\t\t\tp.print(token.LPAREN)", Expect: "flag-gates-syntax/RhsHasParen"},
 			{Name: "binary-right-assoc", File: f, Old: "p.expr1(x.Y, prec+1, depth+1)", New: "p.expr1(x.Y, prec, depth+1)", Expect: "binary/right-operand"},
 			{Name: "prefix-from-printer-state", File: "printer/printer.go", Old: "\t\tp.output = append(p.output, tabwriter.Escape)\n\t}\n\n\tif debug {", New: "\t\tp.output = append(p.output, tabwriter.Escape)\n\t\tif p.lastTok == token.CSTRING {\n\t\t\tp.output = append(p.output, 'c')\n\t\t}\n\t}\n\n\tif debug {", Expect: "literal-prefix/printer.print"},
+			{Name: "else-printed-only-without-init", File: f, Old: "\t\tif s.Else != nil {\n", New: "\t\tif s.Else != nil && s.Init == nil {\n", Expect: "print-operand-path/printer.stmt:IfStmt.Else"},
 			{Name: "unary-op-ignored", File: f, Old: "\t\t\t// no parenthesis needed\n\t\t\tp.print(x.Op)\n", New: "\t\t\t// no parenthesis needed\n\t\t\tp.print(token.SUB)\n", Expect: "print-field/UnaryExpr.Op"},
 		},
 	})
@@ -102,6 +103,12 @@ func runC19(c *core.Check) {
 		c.Decide(okPrefix && !usesState, "literal-prefix", "printer.print", pr.Pos(), "the c/py prefix is attached to the BasicLit's text from its own Kind", "the c\"…\" / py\"…\" prefix is not attached where the BasicLit becomes text (or writeString consults p.lastTok): a comment written between the previous token and the literal gets the prefix (`x := c/* hi */ c\"abc\"`), and the output no longer parses to the same tree")
 	}
 
+	// path-sensitive companion of print-field: an optional child printed on one path of a case is printed or nil on all
+	nC, nO := opCoverCases(c, ppk, "print-operand-path", func(*ast.FuncDecl) bool { return true }, c19OperandReviewed)
+	c.Analysed("print_operand_path_cases", nC)
+	c.Analysed("print_operand_path_operands", nO)
+	c.Floor("print-operand-path", 70)
+
 	cats := []struct{ iface, fn string }{{"Expr", "printer.expr1"}, {"Stmt", "printer.stmt"}, {"Spec", "printer.spec"}, {"Decl", "printer.decl"}}
 	c.Floor("print-case", 60)
 	c.Floor("print-field", 120)
@@ -155,6 +162,11 @@ func runC19(c *core.Check) {
 			checkPrintedFields(c, prog, ppk, xpk, node, nt, cc, info.Implicits[cc])
 		}
 	}
+}
+
+// c19OperandReviewed: cases where a path legitimately leaves an optional child unprinted.
+var c19OperandReviewed = map[string]string{
+	"printer.stmt:RangeStmt.Value": "a value variable without a key variable cannot be written (`for _, v := range` has the key `_`) and the parser never builds it; go/printer has the same shape",
 }
 
 // c19NoCase: node types the parser builds that are printed by their parent, not through the category switch.
